@@ -46,6 +46,8 @@ impl<'a> Visit<'a> for CallFinder<'a> {
     }
 }
 
+fn leak_expr(e: Expr) -> &'static Expr { Box::leak(Box::new(e)) }
+
 struct MatchFinder<'a> {
     hits: Vec<&'a syn::ExprMatch>,
 }
@@ -285,6 +287,17 @@ pub fn render_frag(r: &R, fr: FnRef, sel: &str, header: &str) -> Result<(String,
             }
             &arms[0].body
         }
+        "match" => {
+            // match <scrutinee-prefix>[#n] : the whole `match` expression (arms in their order: first-match semantics is part of what
+            // the contract pins down)
+            let rest = rest.replace('~', "::");
+            let (scrut, ord) = parse_ord(&rest);
+            let mut mf = MatchFinder { hits: vec![] };
+            mf.visit_block(block);
+            let cands: Vec<&&syn::ExprMatch> = mf.hits.iter().filter(|m| norm(r.verb(m.expr.span())).starts_with(&norm(&scrut))).collect();
+            let m = cands.get(ord).ok_or_else(|| format!("lost anchor: match on `{}`#{} not found", scrut, ord))?;
+            leak_expr(Expr::Match((**m).clone()))
+        }
         "let" => {
             let (name, ord) = parse_ord(rest);
             let mut lf = LetFinder { name: name.clone(), hits: vec![] };
@@ -308,6 +321,17 @@ pub fn render_frag(r: &R, fr: FnRef, sel: &str, header: &str) -> Result<(String,
             cf.visit_block(block);
             let c = cf.hits.get(ord).ok_or_else(|| format!("lost anchor: const `{}`#{} not found", name, ord))?;
             &c.expr
+        }
+        "ifcond" => {
+            // ifcond <name>[#n] : the condition of the `if` that initialises `let <name> = if COND { … } else { … };`
+            let (name, ord) = parse_ord(rest);
+            let mut lf = LetFinder { name: name.clone(), hits: vec![] };
+            lf.visit_block(block);
+            let l = lf.hits.get(ord).ok_or_else(|| format!("lost anchor: let `{}`#{} not found", name, ord))?;
+            match l.init.as_ref().map(|i| &*i.expr) {
+                Some(Expr::If(ei)) => &ei.cond,
+                _ => return Err(format!("lost anchor: let `{}` is not initialised by an `if`", name)),
+            }
         }
         "letclosure" => {
             // letclosure <name>[#n] : the body of a closure bound by `let <name> = [move] |params| body`
@@ -354,11 +378,56 @@ pub fn render_frag(r: &R, fr: FnRef, sel: &str, header: &str) -> Result<(String,
         .filter(|id| !params.contains(id) && !bound_by_lets.contains(id) && !allowed_extra.contains(id) && id != "self")
         .collect();
     missing.sort();
-    if !missing.is_empty() {
-        return Err(format!("lost anchor: fragment uses free variables {:?} that the header does not declare", missing));
-    }
+    // R16: a local the fragment depends on that the header does not declare is carried into the lifted function when it is an
+    // immutable `let <name> = <init>;` of the same function placed before the fragment and its initialiser (transitively) only
+    // uses declared parameters — evaluating it at the start of the lifted function is what the real code does (a hoisted
+    // sub-expression stays part of the fragment instead of losing the anchor)
     if let Some(sa) = r.opts.get("self_as") {
         r.renames.borrow_mut().insert("self".into(), sa.to_string());
+    }
+    let mut carried: Vec<String> = vec![];
+    {
+        let frag_start = frag.span().start();
+        let mut todo = missing.clone();
+        let mut known: HashSet<String> = params.clone();
+        for b in &bound_by_lets { known.insert(b.clone()); }
+        for g in &allowed_extra { known.insert(g.clone()); }
+        let mut guard = 0;
+        let mut unresolved: Vec<String> = vec![];
+        let mut defs: Vec<(String, &syn::Local)> = vec![];
+        while let Some(name) = todo.pop() {
+            guard += 1;
+            if guard > 32 { unresolved.push(name); break; }
+            if known.contains(&name) { continue; }
+            let mut lf = LetFinder { name: name.clone(), hits: vec![] };
+            lf.visit_block(block);
+            let cand = lf.hits.iter().filter(|l| { let e = l.span().end(); (e.line, e.column) <= (frag_start.line, frag_start.column) }).last();
+            let ok = match cand {
+                Some(l) => matches!(&l.pat, Pat::Ident(pi) if pi.mutability.is_none() && pi.by_ref.is_none()) || matches!(&l.pat, Pat::Type(pt) if matches!(&*pt.pat, Pat::Ident(pi) if pi.mutability.is_none())),
+                None => false,
+            };
+            match (ok, cand.and_then(|l| l.init.as_ref())) {
+                (true, Some(init)) if init.diverge.is_none() => {
+                    known.insert(name.clone());
+                    for id in free_idents(&init.expr) { if !known.contains(&id) && id != "self" { todo.push(id); } }
+                    defs.push((name, cand.unwrap()));
+                }
+                _ => unresolved.push(name),
+            }
+        }
+        if unresolved.is_empty() && !missing.is_empty() {
+            // definitions in source order
+            defs.sort_by_key(|(_, l)| { let st = l.span().start(); (st.line, st.column) });
+            for (name, l) in &defs {
+                r.note(format!("R16 local `{}` (defined before the fragment from declared parameters) carried into the lifted function", name));
+                carried.push(format!("let {} = {};", name, r.expr(&l.init.as_ref().unwrap().expr)));
+            }
+            missing.clear();
+        }
+    }
+    if !missing.is_empty() {
+        r.renames.borrow_mut().remove("self");
+        return Err(format!("lost anchor: fragment uses free variables {:?} that the header does not declare", missing));
     }
     let mut body = r.expr(frag);
     if let Some(w) = r.opts.get("wrap") {
@@ -373,6 +442,11 @@ pub fn render_frag(r: &R, fr: FnRef, sel: &str, header: &str) -> Result<(String,
     s.push_str(header.trim_end());
     s.push_str("\n{\n");
     for l in &lets {
+        s.push_str("    ");
+        s.push_str(l);
+        s.push('\n');
+    }
+    for l in &carried {
         s.push_str("    ");
         s.push_str(l);
         s.push('\n');
